@@ -383,7 +383,7 @@ pub fn run_explicit<C: PropCheck>(check: &C, cfg: &RunCfg, cases: Vec<C::Case>, 
                                     what: f.what.clone(),
                                     replay: json!({
                                         "property": cfg.prop, "tier": cfg.tier.name(), "seed": cfg.seed, "shard": shard,
-                                        "sig": f.sig, "what": f.what, "detail": f.detail, "case": check.case_json(&part[i]),
+                                        "sig": f.sig, "what": f.what, "detail": f.detail, "case": f.detail.get("replay_case").cloned().unwrap_or_else(|| check.case_json(&part[i])),
                                     }),
                                 });
                             }
